@@ -119,8 +119,10 @@ def impl_split_array(rows, t, early, enc):
     return (len(l), len(r), int(t2))
 
 
-def diff_unit(ctx, unit, cases, lines, impl_fn, spec_fn, nontrivial_fn, show_case, dist_fn=None):
-    """Generic correspondence loop: run model on `lines`, impl on `cases`, diff, evaluate spec."""
+def diff_unit(ctx, unit, cases, lines, impl_fn, spec_fn, nontrivial_fn, show_case, dist_fn=None, search_fn=None):
+    """Generic correspondence loop: run model on `lines`, impl on `cases`, diff, evaluate spec.
+    On a model/implementation disagreement without a failing input, `search_fn()` supplies further
+    cases (the thorough generator) on which only the implementation and the law are evaluated."""
     mout = lib.run_model_parallel("C07", lines)
     nontriv = set()
     dist = {}
@@ -145,7 +147,19 @@ def diff_unit(ctx, unit, cases, lines, impl_fn, spec_fn, nontrivial_fn, show_cas
             bad += 1
         if bad > 6:
             break
-    ctx.count(unit, len(cases), len(nontriv), dist)
+    n_search = 0
+    if bad and search_fn and not any((not v["nfi"]) and v["unit"] == unit for v in ctx.violations):
+        # search the implementation for a concrete failing input (DESIGN 2.2 step 5)
+        for j, case in enumerate(search_fn()):
+            n_search += 1
+            out = impl_fn(case, j)
+            reason = spec_fn(case, out)
+            if reason:
+                ctx.violation(unit, "%s violates the chunking law: %s (impl %s) [found by the escalated search]"
+                              % (unit, reason, out), {"input": show_case(case), "impl": out, "unit": unit})
+                break
+        ctx.notes.append("%s: escalated search evaluated %d further cases" % (unit, n_search))
+    ctx.count(unit, len(cases) + n_search, len(nontriv), dist)
     if cases:
         k = len(cases) // 3
         ctx.sample({"unit": unit, "case": show_case(cases[k]), "model": mout[k]})
@@ -445,14 +459,15 @@ def rechunk_impl(cs, enc):
     return "ok " + " ".join(show_real(o) for o in outs)
 
 
-def unit_rechunk(ctx):
+def rechunk_cases(ctx, thorough):
     cases = []
-    nmax = 5 if ctx.thorough else 4
-    # starts are multiples of 600 ns so gaps fall on both sides of the 1000 ns threshold
+    nmax = 5 if thorough else 4
+    # starts are multiples of 600 ns so gaps fall on both sides of the 1000 ns threshold; lengths up to
+    # 1500 ns so that a long early row can span a later inter-row distance
     for n in range(1, nmax + 1):
         for steps in itertools.product([0, 1, 2, 3], repeat=n - 1):
-            for lens in itertools.product([0, 100, 700], repeat=n):
-                if not ctx.thorough and ctx.rng.random() < (0.0 if n <= 3 else 0.8):
+            for lens in itertools.product([0, 100, 700, 1500], repeat=n):
+                if not thorough and ctx.rng.random() < (0.0 if n <= 3 else 0.9):
                     continue
                 t = 600
                 rows = []
@@ -462,19 +477,24 @@ def unit_rechunk(ctx):
                     rows.append((t, t + lens[i], i, 0))
                 e = max(r[1] for r in rows)
                 for parts in partitions(ctx.rng, rows, 0, e + 100, exhaustive=False, kmax=3):
-                    for tgt in ([1, 2, 3] if ctx.thorough else [1, 2]):
+                    for tgt in ([1, 2, 3] if thorough else [1, 2]):
                         cases.append([achunk(a, b, p, tgt=tgt) for a, b, p in parts])
-    for _ in range(3000 if ctx.thorough else 300):
+    for _ in range(4000 if thorough else 400):
         n = ctx.rng.randint(1, 30)
         t = ctx.rng.randint(0, 50)
         rows = []
         for i in range(n):
             t += ctx.rng.choice([0, 3, 400, 900, 1001, 1500, 5000])
-            rows.append((t, t + ctx.rng.choice([0, 1, 50, 600, 1200]), i, 0))
+            rows.append((t, t + ctx.rng.choice([0, 1, 50, 600, 1200, 2500]), i, 0))
         e = max(r[1] for r in rows) + ctx.rng.choice([0, 7])
         parts = ctx.rng.choice(partitions(ctx.rng, rows, 0, e, exhaustive=False, kmax=4))
         tgt = ctx.rng.randint(1, 8)
         cases.append([achunk(a, b, p, tgt=tgt) for a, b, p in parts])
+    return cases
+
+
+def unit_rechunk(ctx):
+    cases = rechunk_cases(ctx, ctx.thorough or ctx.escalated())
     lines = ["rechunk %d %s" % (len(cs), " ".join(enc_chunk(c) for c in cs)) for cs in cases]
 
     def impl_fn(case, idx):
@@ -483,7 +503,8 @@ def unit_rechunk(ctx):
     diff_unit(ctx, "rechunk", cases, lines, impl_fn, spec_rechunk,
               lambda c, o: sum(len(x["rows"]) for x in c) >= 2 and o.count("[") >= 2,
               lambda c: {"stream": c},
-              lambda c, o: ("%d->%d chunks" % (len(c), o.count("["))) if o.startswith("ok") else o)
+              lambda c, o: ("%d->%d chunks" % (len(c), o.count("["))) if o.startswith("ok") else o,
+              search_fn=lambda: rechunk_cases(ctx, True))
 
 
 # ------------------------------------------------------------------------------------------
